@@ -18,6 +18,8 @@ NTXT = 2            # zt<k>.txt
 def seg_of(name):
     if name == INIT:
         return 3
+    if name.startswith("zm") and name.endswith(".py~") and name[2:-4].isdigit():
+        return 4 * int(name[2:-4]) + 7          # an ignored editor backup (default pattern "*~")
     if name.startswith("zm") and name.endswith(".py") and name[2:-3].isdigit():
         return 4 * int(name[2:-3]) + 1
     if name.startswith("zm") and name[2:].isdigit():
@@ -31,6 +33,8 @@ def name_of(seg):
     if seg == 3:
         return INIT
     k, r = divmod(seg, 4)
+    if r == 3:
+        return "zm%d.py~" % (k - 1)
     return {0: "zm%d", 1: "zm%d.py", 2: "zt%d.txt"}[r] % k
 
 
@@ -50,7 +54,7 @@ def is_folder_name(name):
 def modid(name):
     """module id of a folder / .py name, None for others"""
     s = seg_of(name)
-    return s // 4 if s % 4 in (0, 1) and s != 3 else None
+    return s // 4 if s % 4 in (0, 1) else None
 
 
 # ----------------------------------------------------------------------------- contents
@@ -359,7 +363,27 @@ def module_answer(project, path):
         except Exception as e:
             attrs.append((nm, ("exc", type(e).__name__)))
     out["attrs"] = tuple(attrs)
-    return ("module", out["source"], out["names"], out["attrs"])
+    # the same through the module's SCOPE (GlobalScope.get_names / lookup), which keeps its own table
+    scope_part = None
+    if not res.is_folder():
+        try:
+            scope = pm.get_scope()
+            snames = sorted(set(scope.get_names()) - set(scope.builtin_names))
+            looks = []
+            for nm in ["e%d" % k for k in range(NMOD)] + ["x0", "K0"]:
+                pn = scope.lookup(nm)
+                if pn is None:
+                    looks.append((nm, None))
+                else:
+                    loc = pn.get_definition_location()
+                    r = loc[0].get_resource() if loc[0] is not None and hasattr(loc[0], "get_resource") else None
+                    looks.append((nm, (None if r is None else r.path, loc[1])))
+            scope_part = (tuple(snames), tuple(looks))
+        except exceptions.ModuleSyntaxError:
+            scope_part = "syntax-error"
+        except Exception as e:
+            scope_part = ("exc", type(e).__name__)
+    return ("module", out["source"], out["names"], out["attrs"], scope_part)
 
 
 def occurrences_answer(project, path, name):
